@@ -77,6 +77,10 @@ type Violation struct {
 	Key  string          `json:"key"` // stable hash of the case
 	Msg  string          `json:"msg"`
 	Case json.RawMessage `json:"case"`
+	// Preceding holds the cases the worker ran just before this one (oldest first). A
+	// violation that is an effect of earlier calls (state kept by the library between
+	// calls) does not reproduce from Case alone; the replay command then runs these first.
+	Preceding []json.RawMessage `json:"preceding,omitempty"`
 }
 
 // Result is what one worker (shard) reports.
@@ -112,6 +116,9 @@ type Ctx struct {
 	res      Result
 	distinct map[uint64]struct{}
 	journal  *os.File
+	recent   []string             // the last journalled cases, oldest first
+	notes    [12]func() interface{} // the last noted cases (cheap form of the journal)
+	nnotes   int
 	maxViol  int
 	maxSamp  int
 }
@@ -256,7 +263,26 @@ func (c *Ctx) Violation(cs interface{}, format string, args ...interface{}) {
 	defer c.mu.Unlock()
 	c.res.NViolations++
 	if len(c.res.Violations) < c.maxViol {
-		c.res.Violations = append(c.res.Violations, Violation{Key: hex.EncodeToString(sum[:8]), Msg: msg, Case: b})
+		v := Violation{Key: hex.EncodeToString(sum[:8]), Msg: msg, Case: b}
+		recent := c.recent
+		if len(recent) == 0 && c.nnotes > 0 {
+			for i := c.nnotes - len(c.notes); i < c.nnotes; i++ {
+				if i >= 0 {
+					if nb, err := json.Marshal(c.notes[i%len(c.notes)]()); err == nil {
+						recent = append(recent, string(nb))
+					}
+				}
+			}
+		}
+		for i, l := range recent {
+			if i == len(recent)-1 && l == string(b) {
+				break // the entry of the case itself
+			}
+			if json.Valid([]byte(l)) {
+				v.Preceding = append(v.Preceding, json.RawMessage(l))
+			}
+		}
+		c.res.Violations = append(c.res.Violations, v)
 	}
 	if c.Replay {
 		fmt.Printf("  violation: %s\n", msg)
@@ -270,6 +296,19 @@ func (c *Ctx) NViolations() int64 {
 	return c.res.NViolations
 }
 
+// Note remembers the case that is about to run (as a function producing it, so that nothing
+// is marshalled unless a violation is recorded): the cases noted before a violating case are
+// stored with it as "preceding".
+func (c *Ctx) Note(mk func() interface{}) {
+	if c.Replay {
+		return
+	}
+	c.mu.Lock()
+	c.notes[c.nnotes%len(c.notes)] = mk
+	c.nnotes++
+	c.mu.Unlock()
+}
+
 // Journal appends a line describing the case that is about to run, so that a
 // worker death leaves its witness behind.
 func (c *Ctx) Journal(line string) {
@@ -278,6 +317,12 @@ func (c *Ctx) Journal(line string) {
 	}
 	c.mu.Lock()
 	defer c.mu.Unlock()
+	if len(line) < 1<<16 {
+		if len(c.recent) >= 12 {
+			c.recent = append(c.recent[:0], c.recent[1:]...)
+		}
+		c.recent = append(c.recent, line)
+	}
 	if c.journal == nil {
 		f, err := os.OpenFile(filepath.Join(c.Dir, fmt.Sprintf("%d.journal", c.Shard)), os.O_CREATE|os.O_WRONLY|os.O_TRUNC, 0o644)
 		if err != nil {
